@@ -40,13 +40,14 @@ import asynq
 import qcore
 import typeshed_client
 from qcore.testing import Anything
-from typing_extensions import Protocol, get_args, get_origin
+from typing_extensions import Protocol, Unpack, get_args, get_origin
 
 from . import attributes, format_strings, importer, node_visitor, type_evaluation
 from .analysis_lib import get_attribute_path
 from .annotated_types import Ge, Gt, Le, Lt
 from .annotations import (
     SyntheticEvaluator,
+    _SubscriptedValue,
     is_context_manager_type,
     is_instance_of_typing_name,
     is_typing_name,
@@ -3376,6 +3377,11 @@ class NameCheckVisitor(node_visitor.ReplacingNodeVisitor):
                         pass
                     else:
                         val = KnownValue(unpacked)
+                elif isinstance(val, _StarredValue) and isinstance(
+                    val.value, (TypeVarValue, _SubscriptedValue)
+                ):
+                    # *tuple[T, ...] where T is a PEP 695 type parameter
+                    val = _SubscriptedValue(KnownValue(Unpack), (val.value,))
                 self.check_for_missing_generic_params(elt, val)
                 elts.append(val)
         else:
@@ -3764,6 +3770,11 @@ class NameCheckVisitor(node_visitor.ReplacingNodeVisitor):
         right = right_composite.value
         if self.in_annotation and isinstance(op, ast.BitOr):
             # Accept PEP 604 (int | None) in annotations
+            if isinstance(left, (TypeVarValue, _SubscriptedValue)) or isinstance(
+                right, (TypeVarValue, _SubscriptedValue)
+            ):
+                # T | None where T is a PEP 695 type parameter
+                return _SubscriptedValue(KnownValue(Union), (left, right))
             if isinstance(left, KnownValue) and isinstance(right, KnownValue):
                 self.check_for_missing_generic_params(left_node, left)
                 self.check_for_missing_generic_params(right_node, right)
@@ -5026,7 +5037,14 @@ class NameCheckVisitor(node_visitor.ReplacingNodeVisitor):
             )
             return self.being_assigned
         elif isinstance(node.ctx, ast.Load):
-            if value == KnownValue(type):
+            annotation_members = (
+                _unevaluated_annotation_members(index) if self.in_annotation else None
+            )
+            if annotation_members is not None:
+                # e.g. list[T] where T is a PEP 695 type parameter: there is no runtime
+                # object to subscript, keep the structure for type_from_value
+                return_value = _SubscriptedValue(value, annotation_members)
+            elif value == KnownValue(type):
                 # "type[int]" is legal, but neither
                 # type.__getitem__ nor type.__class_getitem__ exists at runtime. Support
                 # it directly instead.
@@ -6127,6 +6145,39 @@ else:
         # used only if this config is set. The former doesn't seem to have
         # a way to detect from the class whether it will be used.
         return typ.model_config.get("extra") != "allow"
+
+
+def _unevaluated_annotation_members(index: Value) -> Optional[tuple[Value, ...]]:
+    """If the index of a subscript in an annotation contains a type parameter (or an
+    already unevaluated subscript), return the members of the index."""
+    if isinstance(index, SequenceValue) and index.typ is tuple:
+        members = index.get_member_sequence()
+        if members is None:
+            return None
+        members = tuple(members)
+    else:
+        members = (index,)
+    if any(_is_unevaluated_annotation(m) for m in members):
+        # a fully known parameter list such as [None] in Callable[[None], T] was folded
+        # into a KnownValue; type_from_value expects the display
+        return tuple(
+            (
+                replace_known_sequence_value(m)
+                if isinstance(m, KnownValue) and isinstance(m.val, list)
+                else m
+            )
+            for m in members
+        )
+    return None
+
+
+def _is_unevaluated_annotation(value: Value) -> bool:
+    if isinstance(value, (TypeVarValue, _SubscriptedValue)):
+        return True
+    if isinstance(value, SequenceValue) and value.typ is list:
+        # the parameter list of Callable[[T, int], str]
+        return any(_is_unevaluated_annotation(m) for _, m in value.members)
+    return False
 
 
 def _has_only_known_attributes(
